@@ -25,25 +25,52 @@ def _num(d):
     return d[0] + 253 * d[1] + 253 ** 2 * d[2] + 253 ** 3 * d[3]
 
 
+def _enc_all(values):
+    """encode_number over values; the results are HELD until all calls are made (a result is a value, not a view of shared state).
+    An exception or a malformed result is recorded as [0, 0, 0, 0], which no number encodes to."""
+    held = []
+    for val in values:
+        try:
+            held.append(_ENC(val))
+        except Exception:
+            held.append(None)
+    out = []
+    for r in held:
+        try:
+            lst = [int(x) for x in r]
+        except Exception:
+            lst = []
+        out.append(lst if len(lst) == 4 and all(0 <= x <= 255 for x in lst) else [0, 0, 0, 0])
+    return out
+
+
+def _dec(arg):
+    try:
+        r = _DEC(arg)
+        return limbs(r) if isinstance(r, int) and not isinstance(r, bool) else [-1, 1]
+    except Exception:
+        return [-1, 0]           # negative: no byte string decodes to it
+
+
 def _gen(spec):
     kind = spec["kind"]
     if kind == "enc_exh":
         base, n = spec["base"], spec["n"]
-        return {"kind": kind, "base": limbs(base), "rows": [list(_ENC(base + i)) for i in range(n)]}
+        return {"kind": kind, "base": limbs(base), "rows": _enc_all(range(base, base + n))}
     if kind == "enc":
-        return {"kind": kind, "rows": [limbs(v) + list(_ENC(v)) for v in spec["values"]]}
+        return {"kind": kind, "rows": [limbs(v) + e for v, e in zip(spec["values"], _enc_all(spec["values"]))]}
     if kind == "enc_stride":
         vals = range(spec["start"], spec["stop"], spec["step"])
-        return {"kind": "enc", "rows": [limbs(v) + list(_ENC(v)) for v in vals]}
+        return {"kind": "enc", "rows": [limbs(v) + e for v, e in zip(vals, _enc_all(vals))]}
     if kind == "dec_exh":
         ln, base, n = spec["len"], spec["base"], spec["n"]
         rows = []
         for idx in range(base, base + n):
             s = bytes((idx >> (8 * j)) & 0xFF for j in range(ln))
-            rows.append(limbs(_DEC(s)))
+            rows.append(_dec(s))
         return {"kind": kind, "len": ln, "base": base, "rows": rows}
     if kind == "dec":
-        return {"kind": kind, "rows": [[list(s)] + limbs(_DEC(bytes(s))) for s in spec["strings"]]}
+        return {"kind": kind, "rows": [[list(s)] + _dec(bytes(s)) for s in spec["strings"]]}
     if kind == "enc_hist":
         # the codec is a FUNCTION: calls outside the range (whatever they do) between the recorded calls leave no trace
         rows = []
@@ -53,7 +80,7 @@ def _gen(spec):
                     _ENC(bad)
                 except Exception:
                     pass
-            rows.append(limbs(val) + list(_ENC(val)))
+            rows.append(limbs(val) + _enc_all([val])[0])
         return {"kind": "enc", "rows": rows}
     if kind == "dec_hist":
         # ... and the caller may hand in the same (refilled) mutable buffer every time
@@ -66,7 +93,7 @@ def _gen(spec):
             else:
                 arg = bufs[how]
                 arg[:] = st
-            rows.append([list(st)] + limbs(_DEC(arg)))
+            rows.append([list(st)] + _dec(arg))
         return {"kind": "dec", "rows": rows}
     raise MachineryError(kind)
 
